@@ -34,7 +34,7 @@ import sys
 import time
 import zlib
 
-PROPERTIES = ["C13"]
+PROPERTIES = ["C13", "C11"]
 ORDER = 50
 
 STATE_NAMES = {0: "DISCONNECTED", 1: "CONNECTING", 2: "CONNECTED"}
